@@ -144,6 +144,8 @@ M = [
  ("compress_append enters every position", D + 'name.rs', "                    if position <= MAX_POINTER_OFFSET {\n                        e.insert(position);\n                    }", "                    e.insert(position);", 'untied:name.write'),
  ("compress_append bounds by the name length", D + 'name.rs', "                    if position <= MAX_POINTER_OFFSET {", "                    if position <= MAX_NAME_LENGTH {", 'fail:name_write_source'),
  ("plain_append ends a name with its label count", D + 'name.rs', "            out.write_all(&label.data)?;\n        }\n\n        out.write_all(&[0])?;\n        Ok(())\n    }\n\n    fn compress_append", "            out.write_all(&label.data)?;\n        }\n\n        out.write_all(&[self.labels.len() as u8 & 0])?;\n        Ok(())\n    }\n\n    fn compress_append", 'untied:name.write'),
+ ("names shown with a trailing-dot style separator", D + 'name.rs', "                f.write_str(\".\")?;", "                f.write_str(\". \")?;", 'fail:name_display_source'),
+ ("labels shown with their dots quoted", D + 'name.rs', "        f.write_str(&String::from_utf8_lossy(&self.data))", "        f.write_str(&String::from_utf8_lossy(&self.data).replace('.', \"\\\\.\"))", 'untied:name.display'),
  ("mdns refresh in millis", 'simple-mdns/src/resource_record_manager.rs', 'added + Duration::from_secs(ttl / 2)', 'added + Duration::from_millis(ttl / 2)', 'untied:mdns.expiration'),
 ]
 
